@@ -151,7 +151,8 @@
 #undef FAILIF
 #undef NEEDLIVE
       w.lastResult = res;
-      if (!CheckAll(w, msg, key)) { msg = o.name + ": " + msg + Dump(w); key = key + ":" + kKindNames[o.k]; return seqx::SEQX_VIOLATION; }
+      const bool touchesU = (o.k == PUT_TABLE || o.k == REMOVE_TABLE || o.k == INTERSECT || (o.k >= ASSIGN_T_U && o.k <= SWAPWITHTABLE) || o.k == U_REMOVE || o.k == U_PUT || o.k == U_CLEAR || o.k == AL_MOVETOTABLE_FIRSTKEY);
+      if (!CheckAll(w, touchesU, msg, key)) { msg = o.name + ": " + msg + Dump(w); key = key + ":" + kKindNames[o.k]; return seqx::SEQX_VIOLATION; }
       return seqx::SEQX_OK;
    }
 
